@@ -12,6 +12,8 @@ mod scan;
 mod lex;
 mod grammar;
 mod run;
+mod render;
+mod rendergen;
 
 fn main() {
     let args: Vec<String> = std::env::args().collect();
@@ -40,6 +42,7 @@ fn main() {
         "window" => l0::window(&mut out, &tier, &mut rng),
         "lexiter" => lex::lexiter(&mut out, &tier, &mut rng),
         "lexops" => lex::lexops(&mut out, &tier, &mut rng),
+        "render" => rendergen::render(&mut out, &tier, &mut rng),
         "peg" | "rep" | "capture" | "errors" | "bracket" | "list" | "recover" | "twice" | "scoped" | "ctxops"
         | "term" | "nopanic" => run::family(&mut out, family, &tier, &mut rng),
         _ => {
@@ -60,7 +63,7 @@ fn replay() {
         let family = parts[0];
         // the last field is the recorded observation; everything between is input
         let fields = &parts[1..parts.len() - 1];
-        let obs = std::panic::catch_unwind(|| l0::replay(family, fields).or_else(|| lex::replay(family, fields)).or_else(|| run::replay(family, fields)))
+        let obs = std::panic::catch_unwind(|| l0::replay(family, fields).or_else(|| lex::replay(family, fields)).or_else(|| run::replay(family, fields)).or_else(|| rendergen::replay(family, fields)))
             .ok()
             .flatten()
             .unwrap_or_else(|| "unreplayable".to_string());
